@@ -11,7 +11,9 @@ import sys
 from vf import core
 
 VERSION_A = '''from vfstalelib_{id} import LibCls
+from vfstalelib_{id}_v2 import LibCls2
 from vfstalepkg_{id}.sub import SubCls
+from vfstalepkg_{id}.sub_v2 import SubCls2
 from vfstalepkg_{id}.mid.deep import DeepCls
 
 
@@ -104,6 +106,14 @@ def uses_sub(a):
     return 1
 
 
+def uses_lib2(a):
+    return 1
+
+
+def uses_sub2(a):
+    return 1
+
+
 def uses_inner(a):
     return 1
 
@@ -167,7 +177,8 @@ MUTATIONS = {
     "override-of-builtin-method-removed": ("Tags.append", lambda s: s.replace("    def append(self, x):\n        list.append(self, x)\n\n", "")),
     "nested-class-removed": ("uses_inner", lambda s: s.replace("    class Inner:\n        pass\n", "    pass\n")),
 }
-VALID = ["keep1", "keep2", "K.keepm", "K.keepc", "renamed", "mixed", "Basket.total", "Tags.first"]
+# uses_lib2 / uses_sub2 mention classes of live modules whose names merely start with the name of a removed module
+VALID = ["keep1", "keep2", "K.keepm", "K.keepc", "renamed", "mixed", "Basket.total", "Tags.first", "uses_lib2", "uses_sub2"]
 
 
 def cut_def(src, name):
@@ -194,6 +205,8 @@ def make_rows(mod, id_):
     lib = importlib.import_module(f"vfstalelib_{id_}")
     sub = importlib.import_module(f"vfstalepkg_{id_}.sub")
     deep = importlib.import_module(f"vfstalepkg_{id_}.mid.deep")
+    lib2 = importlib.import_module(f"vfstalelib_{id_}_v2")
+    sub2 = importlib.import_module(f"vfstalepkg_{id_}.sub_v2")
     NoneType = type(None)
     T = {
         "keep1": [CallTrace(mod.keep1, {"a": int, "b": NoneType}, int), CallTrace(mod.keep1, {"a": str, "b": int}, str), CallTrace(mod.keep1, {"a": List[int], "b": NoneType}, List[int])],
@@ -214,6 +227,8 @@ def make_rows(mod, id_):
         "uses_refunc": [CallTrace(mod.uses_refunc, {"a": List[mod.Refunc]}, int), CallTrace(mod.uses_refunc, {"a": int}, Optional[mod.Refunc])],
         "uses_lib": [CallTrace(mod.uses_lib, {"a": lib.LibCls}, int)],
         "uses_sub": [CallTrace(mod.uses_sub, {"a": Optional[sub.SubCls]}, int)],
+        "uses_lib2": [CallTrace(mod.uses_lib2, {"a": lib2.LibCls2}, int), CallTrace(mod.uses_lib2, {"a": List[lib2.LibCls2]}, int)],
+        "uses_sub2": [CallTrace(mod.uses_sub2, {"a": sub2.SubCls2}, int)],
         "uses_inner": [CallTrace(mod.uses_inner, {"a": mod.Outer.Inner}, int)],
         "uses_deep": [CallTrace(mod.uses_deep, {"a": deep.DeepCls}, int), CallTrace(mod.uses_deep, {"a": List[deep.DeepCls]}, int)],
         "uses_oldparam": [CallTrace(mod.uses_oldparam, {"a": int, "old": mod.OldCls}, int), CallTrace(mod.uses_oldparam, {"a": str, "old": List[mod.OldCls]}, str)],
@@ -278,6 +293,8 @@ def work(p):
         open(os.path.join(sd, f"vfstalelib_{id_}.py"), "w").write("class LibCls:\n    pass\n")
         open(os.path.join(sd, f"vfstalepkg_{id_}", "__init__.py"), "w").write("")
         open(os.path.join(sd, f"vfstalepkg_{id_}", "sub.py"), "w").write("class SubCls:\n    pass\n")
+        open(os.path.join(sd, f"vfstalelib_{id_}_v2.py"), "w").write("class LibCls2:\n    pass\n")
+        open(os.path.join(sd, f"vfstalepkg_{id_}", "sub_v2.py"), "w").write("class SubCls2:\n    pass\n")
         os.makedirs(os.path.join(sd, f"vfstalepkg_{id_}", "mid"))
         open(os.path.join(sd, f"vfstalepkg_{id_}", "mid", "__init__.py"), "w").write("")
         open(os.path.join(sd, f"vfstalepkg_{id_}", "mid", "deep.py"), "w").write("class DeepCls:\n    pass\n")
@@ -288,7 +305,7 @@ def work(p):
             rows = make_rows(mod, id_)
         finally:
             sys.path.remove(sd)
-            for n in [mname, f"vfstalelib_{id_}", f"vfstalepkg_{id_}", f"vfstalepkg_{id_}.sub", f"vfstalepkg_{id_}.mid", f"vfstalepkg_{id_}.mid.deep"]:
+            for n in [mname, f"vfstalelib_{id_}", f"vfstalepkg_{id_}", f"vfstalepkg_{id_}.sub", f"vfstalepkg_{id_}.mid", f"vfstalepkg_{id_}.mid.deep", f"vfstalelib_{id_}_v2", f"vfstalepkg_{id_}.sub_v2"]:
                 sys.modules.pop(n, None)
         # version B
         src_b = VERSION_A
